@@ -112,6 +112,10 @@ META = {
                 tech="exhaustive enumeration of field values (terms of bounded size) x shapes x formats, round-trip equality",
                 text="8 dataclass shapes (flat, frozen, tyme-stamped, nested 1-2 levels) x JSON/CBOR/MGPK x every term of <= 3/4 nodes over 15 atoms.",
                 note="Common representable domain only (no tuples/bytes/NaN/non-str keys)."),
+    "C29": dict(cat="exploration", eng="E3 product enumeration in a sandbox", ref="3 (C29)",
+                tech="exhaustive product enumeration of Filer flag combinations x relative names/bases (with dotted segments) x short open/reopen/close histories on the real Filer in a sandbox directory tree, recursive snapshot diff around every step",
+                text="temp x clean x filed x extensioned x reuse x clear (2^6) x 8 names x 5 bases x 2 (quick) / 4 (thorough) history shapes; Filer's class-level directories are redirected into a sandbox under /dev/shm with sentinel files in every ancestor and sibling directory: everything created or deleted must lie inside the head directory (the instance's mkdtemp directory when temp); close(clear=True) deletes only at or below .path, leaves nothing there, and leaves no mkdtemp directory of the instance.",
+                note="Runs as root on tmpfs, so the permission-driven fallback to the alternate head is watched but not exercised. Left-over mkdtemp directories of temp Filers are a recorded KNOWN-FINDING (2 keys). Intermediate directories of persistent Filers may stay (shared)."),
     "C30": dict(cat="model_checking", eng="E1-sched + virtual asyncio loop, differential", ref="3 (C30), 2 (virtual loop)",
                 tech="stateless exploration incl. all asyncio ready-queue orders on a hand-stepped event loop; do() vs ado() differential",
                 text="Each program is run with do() and with ado() on a virtual BaseEventLoop with 0..2 spinning competitor tasks; the explorer also picks which ready handle runs next; traces, tymes, done flags must be identical.",
